@@ -25,3 +25,24 @@ def removeProc (s : St) (p : String) : St :=
 def onTerminal (keep : Bool) (s : St) (p : String) : St := if removeOnTerminal keep then removeProc s p else s
 
 end Acts.Ret
+
+namespace Acts.Ret
+open Acts.Gen
+
+/-- the retention predicate on the rows of the store, as a function of which processes have delivered their terminal event:
+no task row without its process row (`NoOrphans` of the history theorem); with the default configuration nothing of a finished
+process is left; with `keep_processes` everything of it is still there.  Returns the first violated clause. -/
+def retentionCheck (keep : Bool) (finished : List String) (s : St) : Option (String × String) :=
+  match s.tasks.find? (fun t => !s.procs.contains t.pid) with
+  | some t => some ("task-row-without-process-row", t.pid)
+  | none =>
+    if removeOnTerminal keep then
+      match finished.find? (fun p => s.procs.contains p || s.tasks.any (·.pid == p)) with
+      | some p => some ("rows-left-after-terminal-event", p)
+      | none => none
+    else
+      match finished.find? (fun p => !s.procs.contains p || !s.tasks.any (·.pid == p)) with
+      | some p => some ("rows-deleted-despite-keep", p)
+      | none => none
+
+end Acts.Ret
